@@ -158,6 +158,12 @@ pub struct Snap {
     pub mru: Option<(KD, VD)>,
     /// structural error reported by the hook walk or the mirror checks
     pub walk_err: Option<String>,
+    /// the hook met a pointer that is null or leaves the current table allocation: nothing may follow
+    /// the list any more. (Other structural errors — a node in a vacated bucket of the *current*
+    /// table, asymmetric links, a node its key's lookup does not find — leave the public traversals
+    /// memory-safe for the instrumented types, so observation continues and the order / content
+    /// monitors keep speaking.)
+    pub walk_hard: bool,
     /// addresses etc. for the read-only fingerprint (C19)
     pub fingerprint: Vec<usize>,
     pub alloc_ptr: usize,
@@ -175,6 +181,7 @@ fn hook_part(cache: &Cache, snap: &mut Snap) {
     snap.alloc_ptr = w.alloc_ptr;
     if let Some(e) = &w.error {
         snap.walk_err = Some(e.clone());
+        snap.walk_hard = !e.contains("to vacant bucket");
         return;
     }
     let len = cache.len();
@@ -247,11 +254,12 @@ pub fn observe(cache: &Cache, full: bool) -> Snap {
         ..Snap::default()
     };
     hook_part(cache, &mut snap);
-    if snap.walk_err.is_some() {
+    if snap.walk_err.is_some() && snap.walk_hard {
         return snap;
     }
     if full {
-        let limit = snap.len + 2;
+        // (after a structural error only as far as the hook has validated the pointers)
+        let limit = if snap.walk_err.is_some() { snap.len + 1 } else { snap.len + 2 };
         for (k, v) in cache.iter().take(limit) {
             snap.ord.push(SE { k: kd(k), v: vd(v), esize: entry_size(k, v) });
         }
@@ -292,7 +300,9 @@ impl Snap {
         let mut s = format!(" len={} cur={} max={} cap={} bk={}", self.len, self.cur, self.max, self.cap, self.bk);
         if self.walk_err.is_some() {
             s.push_str(" WALKERR");
-            return s;
+            if self.walk_hard {
+                return s;
+            }
         }
         if self.full {
             let ord: Vec<String> =
@@ -444,7 +454,7 @@ impl World {
             hints.push_str(&format!(" pk=hash:{}", count_of(&log, Kind::Hash)));
         }
         if let (Some(i), Some(p)) = (cidx, &post) {
-            if p.walk_err.is_some() {
+            if p.walk_err.is_some() && p.walk_hard {
                 // quarantine: never touch this cache again, not even to drop it
                 if let Some(c) = self.caches[i].take() {
                     std::mem::forget(c);
